@@ -141,7 +141,15 @@ pub fn run_fault(c: &Case, dir: &Path, findings: &Findings) -> Result<CaseOut, F
                                 }
                                 Op::Delete { key, .. } => {
                                     ex.model = saved;
-                                    tainted.insert(*key);
+                                    if matches!(&r, Err(f) if f.clause == "delete/err") {
+                                        // the call itself reported failure: the active blob is marked first, so nothing was applied;
+                                        // the key keeps being compared (a marker that reached a file may show after a restart)
+                                        failed_writes.insert(*key);
+                                        labels.insert("delete_reported_error".into());
+                                    } else {
+                                        // acknowledged, but a marker for a closed blob may have failed (logged, not reported)
+                                        tainted.insert(*key);
+                                    }
                                 }
                                 _ => {
                                     if r.is_err() {
